@@ -44,9 +44,17 @@ func c20UTCDay(sec int64) string {
 	return fmt.Sprintf("%04d%02d%02d", y, int(m), d)
 }
 
-func c20Open(prefix string) (*DB, func()) {
+// c20Open opens a fresh file-backed database. The sequential unit switches
+// sqlite's fsync off (durability across power loss is not under test); the
+// concurrent unit keeps it on, which widens the windows in which goroutines
+// overlap.
+func c20Open(prefix string, fsync bool) (*DB, func()) {
 	dir, rm := vcase.ScratchDir(prefix)
-	d, err := OpenSQL("sqlite3", "file:"+filepath.Join(dir, "ids.sqlite")+"?_foreign_keys=1")
+	dsn := "file:" + filepath.Join(dir, "ids.sqlite") + "?_foreign_keys=1"
+	if !fsync {
+		dsn += "&_sync=0"
+	}
+	d, err := OpenSQL("sqlite3", dsn)
 	if err != nil {
 		rm()
 		panic(fmt.Sprintf("cannot open database: %v", err))
@@ -92,7 +100,7 @@ func c20IDsOK(v *vcase.Verdict, ids []string, days []string) {
 }
 
 func c20CheckHist(c C20Hist) (v vcase.Verdict) {
-	d, done := c20Open("c20ids-")
+	d, done := c20Open("c20ids-", false)
 	defer done()
 	cur := c.Start
 	zone := time.FixedZone("c20", c.ZoneSec)
@@ -275,7 +283,7 @@ func c20CheckConc(c C20Conc) (v vcase.Verdict) {
 		v.Failf("malformed case")
 		return
 	}
-	d, done := c20Open("c20conc-")
+	d, done := c20Open("c20conc-", true)
 	defer done()
 	saved := now
 	at := time.Unix(c.Now, 0).UTC()
